@@ -158,6 +158,9 @@ func (c *CaseC05) Eval(ob *Obs) []Finding {
 		if v.Chunk != "" {
 			for j := range vw.Files {
 				vw.Files[j].Plan = ReadPlan{Chunk: v.Chunk, ChunkSeed: v.ChunkSeed, MaxChunk: 9, FaultAt: -1}
+				if v.ChunkSeed%2 == 1 {
+					vw.Files[j].StatSize = new(int64) // a FIFO: the size Stat reports says nothing
+				}
 			}
 		}
 		r := ob.run(vw)
